@@ -11,6 +11,7 @@
 (*  h2-goaway-close         HTTP/2 protocol violation: GOAWAY and/or close  *)
 (*  h2-sibling-harmed       a merely unusual request on one stream: the     *)
 (*                          sibling stream must still complete normally     *)
+(*  h2-sibling-starved      ... and must not lose its upload credit         *)
 (*  h2-connection-dropped   ... and the connection must stay open           *)
 (*  not-terminated          after the client closed its side, and all       *)
 (*                          applications returned, the handler never ends   *)
@@ -39,6 +40,8 @@ Clauses(o, ev, o2) ==
                 THEN <<F("h2-goaway-close", "")>> ELSE <<>>)
             \o (IF \E a \in DOMAIN o.reqs : Harmed(a)
                 THEN <<F("h2-sibling-harmed", CHOOSE u \in o.unusual : TRUE)>> ELSE <<>>)
+            \o (IF IsH2(o) /\ o.unusual # {} /\ ~o.winddown /\ \E a \in DOMAIN o.stalled : UploadStarved(o, a)
+                THEN <<F("h2-sibling-starved", CHOOSE u \in o.unusual : TRUE)>> ELSE <<>>)
             \o (IF IsH2(o) /\ o.unusual # {} /\ ~o.illegal /\ ~o.winddown /\ ~o.gone /\ ~o.reset /\ ~o.tfail /\ ~o.shut
                    /\ o.closedAt >= 0 /\ o.now < o.cfg.ka
                 THEN <<F("h2-connection-dropped", CHOOSE u \in o.unusual : TRUE)>> ELSE <<>>)
